@@ -3,7 +3,7 @@
 //! their generators are exported separately (`gen_skip`, `gen_cut`, `gen_fault`).
 //!
 //! ops (all answered by the Lean model as well, see lean/JominiModel/Driver/C08.lean):
-//!   bfits <cap> <hex> | blex <hex> | blexid <hex> | bpeek <hex> | bcut <hex> <k> | bwrite <toks>
+//!   bwritefail <toks> <k> | blexbytes <hex> <n,n,..> | bparts <cap> <sched> <hex> <k> | bfits <cap> <hex> | blex <hex> | blexid <hex> | bpeek <hex> | bcut <hex> <k> | bwrite <toks>
 //!   bstream <cap> <sched> <hex> | bread <cap> <sched> <hex> | bcalls <cap> <sched> <hex> <n>
 //!   breadbytes <cap> <sched> <hex> <n,n,..>
 //!   bskip <cap> <sched> <hex> <k> | blexskip <hex> <k> | blexskipv <hex> <k>
@@ -37,6 +37,41 @@ fn rd_err(e: &ReaderError) -> &'static str {
         ReaderErrorKind::BufferFull => "err:bufferfull",
         ReaderErrorKind::Lexer(l) => lex_err(l),
     }
+}
+
+/// err_report for the slice lexer: the error must carry the lexer's position at the time of the
+/// error, its Display must be the text of its kind, and it has no source.  A wrong report
+/// becomes `err:badreport`, which no model output matches.
+fn lex_report(e: &jomini::binary::LexerError, pos_now: usize) -> &'static str {
+    use std::error::Error;
+    let kind = *e.kind();
+    let want = match kind {
+        LexError::Eof => format!("not enough data to read at {}", pos_now),
+        LexError::InvalidRgb => format!("invalid rgb data encountered at {}", pos_now),
+    };
+    let want_kind = match kind { LexError::Eof => "unexpected end of file", LexError::InvalidRgb => "invalid rgb data encountered" };
+    let ok = e.position() == pos_now
+        && e.to_string() == want
+        && e.source().is_none()
+        && kind.to_string() == want_kind
+        && kind.source().is_none()
+        && e.clone().into_kind() == kind;
+    if ok { lex_err(&kind) } else { "err:badreport" }
+}
+
+/// err_report for the streaming reader: position() == the reader's position at the time of the
+/// error, Display matches the kind, source() is Some exactly for Read errors.
+fn rd_report(e: &ReaderError, pos_now: usize) -> &'static str {
+    use std::error::Error;
+    let want = match e.kind() {
+        ReaderErrorKind::Read(_) => format!("failed to read past position: {}", pos_now),
+        ReaderErrorKind::BufferFull => format!("max buffer size exceeded at position: {}", pos_now),
+        ReaderErrorKind::Lexer(LexError::Eof) => format!("unexpected end of file at position: {}", pos_now),
+        ReaderErrorKind::Lexer(LexError::InvalidRgb) => format!("invalid rgb data encountered at position: {}", pos_now),
+    };
+    let is_read = matches!(e.kind(), ReaderErrorKind::Read(_));
+    let ok = e.position() == pos_now && e.to_string() == want && e.source().is_some() == is_read;
+    if ok { rd_err(e) } else { "err:badreport" }
 }
 
 fn join(v: &[String]) -> String {
@@ -249,23 +284,26 @@ impl<R: Read> Stream for TokenReader<R> {
         match self.next() {
             Ok(Some(t)) => Ok(Some((bin_lex_tok(&t), match t { Token::Open => b'o', Token::Close => b'c', _ => b'x' }))),
             Ok(None) => Ok(None),
-            Err(e) => Err((rd_err(&e), e.position())),
+            Err(e) => { let p = e.position(); Err((rd_report(&e, self.position()), p)) }
         }
     }
     fn read_s(&mut self) -> Result<String, (&'static str, usize)> {
         match self.read() {
             Ok(t) => Ok(bin_lex_tok(&t)),
-            Err(e) => Err((rd_err(&e), e.position())),
+            Err(e) => { let p = e.position(); Err((rd_report(&e, self.position()), p)) }
         }
     }
     fn read_bytes_s(&mut self, n: usize) -> Result<String, (&'static str, usize)> {
         match self.read_bytes(n) {
             Ok(b) => Ok(hex(b)),
-            Err(e) => Err((rd_err(&e), e.position())),
+            Err(e) => { let p = e.position(); Err((rd_report(&e, self.position()), p)) }
         }
     }
     fn skip_s(&mut self) -> Result<(), (&'static str, usize)> {
-        self.skip_container().map_err(|e| (rd_err(&e), e.position()))
+        match self.skip_container() {
+            Ok(()) => Ok(()),
+            Err(e) => { let p = e.position(); Err((rd_report(&e, self.position()), p)) }
+        }
     }
     fn pos(&self) -> usize {
         self.position()
@@ -311,6 +349,13 @@ fn balanced(lr: &LexRun, k: usize) -> Option<Result<usize, ()>> {
 // ------------------------------------------------------------------------------------------
 
 pub fn exec(w: &[&str], obs: &mut Obs) -> Option<String> {
+    let r = exec_inner(w, obs)?;
+    // err_report: a wrong error report (position / Display / source) surfaces as err:badreport
+    if r.contains("err:badreport") { obs.violation("err-report", &w.join(" "), &r); }
+    Some(r)
+}
+
+fn exec_inner(w: &[&str], obs: &mut Obs) -> Option<String> {
     let case = || w.join(" ");
     match w {
         ["blex", h] | ["bcut", h, _] => {
@@ -342,7 +387,7 @@ pub fn exec(w: &[&str], obs: &mut Obs) -> Option<String> {
                     Err(e) => {
                         if pk.is_some() { obs.violation("peek-token", &case(), "peek Some on failing token"); }
                         if e.position() != lx.position() || lx.position() != before { obs.violation("err-position", &case(), ""); }
-                        outcome = lex_err(e.kind());
+                        outcome = lex_report(&e, lx.position());
                         break;
                     }
                 }
@@ -353,7 +398,7 @@ pub fn exec(w: &[&str], obs: &mut Obs) -> Option<String> {
                 let mut l2 = Lexer::new(d);
                 let mut n = 0;
                 let o2 = loop {
-                    match l2.read_token() { Ok(t) => { if toks.get(n) != Some(&bin_lex_tok(&t)) { break "diff"; } n += 1; } Err(e) => break lex_err(e.kind()) }
+                    match l2.read_token() { Ok(t) => { if toks.get(n) != Some(&bin_lex_tok(&t)) { break "diff"; } n += 1; } Err(e) => break lex_report(&e, l2.position()) }
                 };
                 let want = if outcome == "end" { "err:eof" } else { outcome };
                 if o2 != want || n != toks.len() || l2.position() != lx.position() { obs.violation("read-token-vs-next-token", &case(), o2); }
@@ -386,6 +431,87 @@ pub fn exec(w: &[&str], obs: &mut Obs) -> Option<String> {
             let cap: usize = cw.parse().ok()?;
             Some(if cap >= min_cap(&d) { "true" } else { "false" }.to_string())
         }
+        ["blexbytes", h, nsw] => {
+            // Lexer::read_bytes (lexer.rs:762), then the next token
+            let d = unhex(h)?;
+            let ns: Vec<usize> = if *nsw == "-" { vec![] } else { nsw.split(',').map(|x| x.parse().ok()).collect::<Option<_>>()? };
+            let mut lx = Lexer::new(&d);
+            let mut log = vec![];
+            let mut at = 0usize;
+            for &n in &ns {
+                match lx.read_bytes(n) {
+                    Ok(b) => {
+                        if at + n > d.len() || b != &d[at..at + n] { obs.violation("lexer-read-bytes-content", &case(), ""); }
+                        at += n;
+                        log.push(format!("{}@{}", hex(b), lx.position()));
+                    }
+                    Err(e) => {
+                        if at + n <= d.len() { obs.violation("lexer-read-bytes-spurious-eof", &case(), ""); }
+                        obs.count("blexbytes:err:eof");
+                        log.push(format!("{}@{}", lex_report(&e, lx.position()), lx.position()));
+                    }
+                }
+                if lx.position() != at || lx.remainder() != &d[at..] { obs.violation("lexer-read-bytes-position", &case(), ""); }
+            }
+            let nx = match lx.next_token() {
+                Ok(Some(t)) => bin_lex_tok(&t),
+                Ok(None) => "end".to_string(),
+                Err(e) => lex_report(&e, lx.position()).to_string(),
+            };
+            Some(format!("{} {} {}", join(&log), nx, lx.position()))
+        }
+        ["bparts", cw, sw, h, kw] => {
+            // k tokens, then into_parts (reader.rs:182); the buffer and the source are re-wrapped in a
+            // new TokenReader.  The API does not carry the window over, so the new reader continues
+            // with the bytes not yet delivered.
+            let d = unhex(h)?;
+            let steps = sched::parse(sw)?;
+            let k: usize = kw.parse().ok()?;
+            let (cap, recycled) = match parse_cap(cw)? { CapW::Fresh(n) => (n, false), CapW::Recycled(n) => (n, true), CapW::Slice => return None };
+            let faulty = has_fault(&steps);
+            let sr = Rc::new(RefCell::new(SchedReader::new(&d, steps)));
+            let bld = TokenReader::builder();
+            let bld = if recycled { bld.buffer(vec![0xaa; cap].into_boxed_slice()) } else { bld.buffer_len(cap) };
+            let mut rd = bld.build(Shared(sr.clone()));
+            let mut before = vec![];
+            let mut out1 = "ok";
+            for _ in 0..k {
+                match rd.next() {
+                    Ok(Some(t)) => before.push(bin_lex_tok(&t)),
+                    Ok(None) => { out1 = "end"; break; }
+                    Err(e) => { out1 = rd_report(&e, rd.position()); break; }
+                }
+            }
+            let pos1 = rd.position();
+            let deliv1 = sr.borrow().delivered();
+            let (buf, reader) = rd.into_parts();
+            // L3: the buffer is the one the reader was built with, the source has not moved, and the
+            // delivered-but-unconsumed bytes are a contiguous run of the returned buffer
+            if buf.len() != cap { obs.violation("into-parts-buffer-len", &case(), ""); }
+            if sr.borrow().delivered() != deliv1 || pos1 > deliv1 { obs.violation("into-parts-source-moved", &case(), ""); }
+            let win = &d[pos1..deliv1];
+            if !win.is_empty() && !buf.windows(win.len()).any(|w| w == win) { obs.violation("into-parts-window-lost", &case(), ""); }
+            let bufhex = hex(&buf);
+            let mut rd2 = TokenReader::builder().buffer(buf).build(reader);
+            let mut after = vec![];
+            let out2;
+            loop {
+                match rd2.next() {
+                    Ok(Some(t)) => after.push(bin_lex_tok(&t)),
+                    Ok(None) => { out2 = "end"; break; }
+                    Err(e) => { out2 = rd_report(&e, rd2.position()); break; }
+                }
+            }
+            // L3: the re-wrapped reader streams exactly the lexer stream of the undelivered bytes
+            let rest = &d[deliv1..];
+            let fr = lex_run(rest);
+            if cap >= min_cap(rest) && !faulty && (after != fr.toks || out2 != fr.outcome || rd2.position() != fr.pos) {
+                obs.violation("into-parts-rewrap-ne-lexer", &case(), &format!("{:?} {} vs {:?} {}", after, out2, fr.toks, fr.outcome));
+            }
+            obs.count(&format!("bparts:{}:{}", out1, out2));
+            let deliv2 = sr.borrow().delivered();
+            Some(format!("{} {} {} {} {} {} {} {} {}", join(&before), out1, pos1, deliv1, bufhex, join(&after), out2, rd2.position(), deliv2))
+        }
         ["blexid", h] => {
             let d = unhex(h)?;
             let mut lx = Lexer::new(&d);
@@ -395,9 +521,9 @@ pub fn exec(w: &[&str], obs: &mut Obs) -> Option<String> {
                 let id = match lx.next_id() {
                     Ok(Some(id)) => id,
                     Ok(None) => break,
-                    Err(e) => { outcome = lex_err(e.kind()); break; }
+                    Err(e) => { outcome = lex_report(&e, lx.position()); break; }
                 };
-                macro_rules! rd { ($call:expr, $mk:expr) => { match $call { Ok(x) => $mk(x), Err(e) => { outcome = lex_err(e.kind()); break; } } }; }
+                macro_rules! rd { ($call:expr, $mk:expr) => { match $call { Ok(x) => $mk(x), Err(e) => { outcome = lex_report(&e, lx.position()); break; } } }; }
                 let t: Token = match id {
                     LexemeId::OPEN => Token::Open,
                     LexemeId::CLOSE => Token::Close,
@@ -439,7 +565,8 @@ pub fn exec(w: &[&str], obs: &mut Obs) -> Option<String> {
             let same = fr.toks == toks.iter().map(|t| t.show()).collect::<Vec<_>>() && fr.outcome == "end" && fr.pos == out.len();
             if wf {
                 if !same { obs.violation("write-lex-roundtrip", &case(), &format!("lexed {:?} {} {}", fr.toks, fr.outcome, fr.pos)); }
-                let mut rd = TokenReader::builder().buffer_len(min_cap(&out)).build(&out[..]);
+                // the default reader (32 KiB buffer) when everything fits, an exact-fit one otherwise
+                let mut rd = if min_cap(&out) <= 32 * 1024 { TokenReader::new(&out[..]) } else { TokenReader::builder().buffer_len(min_cap(&out)).build(&out[..]) };
                 let mut n = 0;
                 loop {
                     match rd.next() {
@@ -454,6 +581,31 @@ pub fn exec(w: &[&str], obs: &mut Obs) -> Option<String> {
                 obs.count(if same { "write:excluded-but-roundtrips" } else { "write:excluded-differs" });
             }
             Some(hex(&out))
+        }
+        ["bwritefail", ts, kw] => {
+            // Token::write into a writer that accepts k bytes and then fails: every `?` of write()
+            let toks = parse_toks(ts)?;
+            let k: usize = kw.parse().ok()?;
+            struct Limited { out: Vec<u8>, left: usize }
+            impl std::io::Write for Limited {
+                fn write(&mut self, buf: &[u8]) -> std::io::Result<usize> {
+                    if self.left == 0 && !buf.is_empty() { return Err(std::io::Error::new(std::io::ErrorKind::Other, "writer full")); }
+                    let n = self.left.min(buf.len());
+                    self.out.extend_from_slice(&buf[..n]);
+                    self.left -= n;
+                    Ok(n)
+                }
+                fn flush(&mut self) -> std::io::Result<()> { Ok(()) }
+            }
+            let mut w = Limited { out: vec![], left: k };
+            let mut res = "ok";
+            for t in &toks { if t.borrow().write(&mut w).is_err() { res = "err:io"; break; } }
+            // L3: what reached the writer is a prefix of the full encoding; an error iff it did not all fit
+            let full = encode(&toks);
+            if !full.starts_with(&w.out) || (res == "ok") != (w.out.len() == full.len()) || w.out.len() != k.min(full.len()) {
+                obs.violation("write-partial", &case(), &hex(&w.out));
+            }
+            Some(format!("{} {}", hex(&w.out), res))
         }
         ["bstream", cw, sw, h] | ["bread", cw, sw, h] => {
             let d = unhex(h)?;
@@ -643,7 +795,7 @@ pub fn exec(w: &[&str], obs: &mut Obs) -> Option<String> {
                     Ok(Some(Token::Open)) => { if left == 0 { break; } left -= 1; }
                     Ok(Some(_)) => {}
                     Ok(None) => return Some(format!("noopen {}", lx.position())),
-                    Err(e) => return Some(format!("pre:{} {}", lex_err(e.kind()), lx.position())),
+                    Err(e) => return Some(format!("pre:{} {}", lex_report(&e, lx.position()), lx.position())),
                 }
             }
             Some(lex_skip_report(&mut lx, LexemeId::OPEN, reference.map(|r| r.map(|n| fr.ends[n - 1])), if failed_in_rgb(&fr, &d) { "err:invalidrgb" } else { fr.outcome }, &case(), obs))
@@ -657,12 +809,12 @@ pub fn exec(w: &[&str], obs: &mut Obs) -> Option<String> {
                 match lx.next_token() {
                     Ok(Some(_)) => {}
                     Ok(None) => return Some(format!("short {}", lx.position())),
-                    Err(e) => return Some(format!("pre:{} {}", lex_err(e.kind()), lx.position())),
+                    Err(e) => return Some(format!("pre:{} {}", lex_report(&e, lx.position()), lx.position())),
                 }
             }
             let id = match lx.read_id() {
                 Ok(id) => id,
-                Err(e) => return Some(format!("id:{} {}", lex_err(e.kind()), lx.position())),
+                Err(e) => return Some(format!("id:{} {}", lex_report(&e, lx.position()), lx.position())),
             };
             // reference: the end of token k; for an Open the matching close
             let reference = if k < fr.toks.len() {
@@ -732,15 +884,16 @@ fn lex_skip_report(lx: &mut Lexer, id: LexemeId, reference: Option<Result<usize,
             let nx = match lx.next_token() {
                 Ok(Some(t)) => bin_lex_tok(&t),
                 Ok(None) => "end".to_string(),
-                Err(e) => lex_err(e.kind()).to_string(),
+                Err(e) => lex_report(&e, lx.position()).to_string(),
             };
             obs.count("lexskip:ok");
             format!("ok {} {} {}", p, nx, lx.position())
         }
         Err(e) => {
-            if let Some(Ok(_)) = reference { obs.violation("lexskip-fails-on-balanced", case, lex_err(e.kind())); }
-            obs.count(&format!("lexskip:{}", lex_err(e.kind())));
-            format!("{} {} {}", lex_err(e.kind()), e.position(), lx.position())
+            let k = lex_report(&e, lx.position());
+            if let Some(Ok(_)) = reference { obs.violation("lexskip-fails-on-balanced", case, k); }
+            obs.count(&format!("lexskip:{}", k));
+            format!("{} {} {}", k, e.position(), lx.position())
         }
     }
 }
@@ -908,6 +1061,15 @@ pub fn gen_c08(g: &mut Gen) {
     }
     g.count("fixed-boundary-tokens");
 
+    // 1a. Token::write into a writer that fails after k bytes, every k, every token kind
+    for t in &fixed {
+        let len = encode(std::slice::from_ref(t)).len();
+        let ks: Vec<usize> = if len <= 40 { (0..=len + 1).collect() } else { vec![0, 1, 2, 3, 4, 5, len - 1, len, len + 1] };
+        for k in ks { g.emit(format!("bwritefail {} {}", t.show(), k)); }
+    }
+    g.emit("bwritefail Id:1,Equal,Rgb:1.2.3.4,Q:4142,Close 13".to_string());
+    g.count("write-failing-writer");
+
     // 1b. exhaustive (not random): for EVERY token kind / boundary payload above, the inputs with a
     // stray trailing byte, every odd length, every cut inside the token, streamed through the reader
     // (a reader that takes a short trailing window for end of input returns Ok(None) here where the
@@ -1057,6 +1219,32 @@ pub fn gen_c08(g: &mut Gen) {
         g.emit(format!("bwrite {}", show_toks(&t)));
     }
     g.count("write-roundtrip");
+
+    // 6b. Lexer::read_bytes (short input included) and TokenReader::into_parts after a partial run
+    let n = g.budget(400, 8000);
+    for _ in 0..n {
+        let d = if g.rng.chance(1, 2) { random_bytes(&mut g.rng, 24) } else { gen_input(g, 6) };
+        let mut ns = vec![];
+        let mut left = d.len() + 4;
+        while left > 0 && ns.len() < 5 { let k = g.rng.below(left.min(10) + 1); ns.push(k.to_string()); left -= k.min(left); if g.rng.chance(1, 4) { break; } }
+        if g.rng.chance(1, 5) { ns.push((d.len() + 1).to_string()); }
+        g.emit(format!("blexbytes {} {}", hex(&d), if ns.is_empty() { "-".to_string() } else { ns.join(",") }));
+    }
+    for d in ["-", "01", "455534", "0c0001000000"] { for ns in ["0", "1", "3", "7", "1,1,1,1,1,1,1", "6,1"] { g.emit(format!("blexbytes {} {}", d, ns)); } }
+    let n = g.budget(500, 10_000);
+    for _ in 0..n {
+        let d = gen_input(g, 10);
+        if d.len() > 120 { continue; }
+        let capw = gen_cap(g, &d);
+        let capv = match parse_cap(&capw) { Some(c) => cap_value(&c, d.len()), None => continue };
+        if capv > 160 { continue; }
+        let nt = lex_run(&d).toks.len();
+        let mut steps = gen_sched(g, d.len());
+        if g.rng.chance(1, 6) { let at = g.rng.below(steps.len() + 1); steps.insert(at, Step::Fail); }
+        let k = g.rng.below(nt + 2);
+        g.emit(format!("bparts {} {} {} {}", capw, sched::show(&steps), hex(&d), k));
+    }
+    g.count("lexer-read-bytes+into-parts");
 
     // 7. read_bytes
     let n = g.budget(300, 6000);
